@@ -53,6 +53,8 @@ type schedCfg struct {
 	writers, readers int
 	opsPerClient     int
 	think            time.Duration // max think time between ops
+	alignPct         int           // percent of ops that instead wait for the next multiple of alignTo since start (+-1ms/0)
+	alignTo          time.Duration // e.g. the checkpoint ticker's period: requests land while a checkpoint/rotation runs
 	shutdown         bool          // graceful Shutdown at a tape-chosen moment
 	tail             time.Duration // virtual time to let pass at the end
 	readAllBuckets   bool
@@ -86,6 +88,7 @@ func runSched(w *Workload, c schedCfg, seed uint64) *schedRun {
 		w     []*WriteReq
 		key   string
 		think time.Duration
+		align int // 0 = no; else 1+offset index
 	}
 	plans := make([][]cop, c.writers+c.readers)
 	for ci := range plans {
@@ -93,6 +96,10 @@ func runSched(w *Workload, c schedCfg, seed uint64) *schedRun {
 			th := time.Duration(0)
 			if c.think > 0 && r.Pct(40) {
 				th = time.Duration(r.Int63n(int64(c.think)))
+			}
+			al := 0
+			if c.alignPct > 0 && r.Pct(c.alignPct) {
+				al = 1 + r.Intn(3)
 			}
 			if ci < c.writers {
 				b := w.Buckets[r.Intn(len(w.Buckets))]
@@ -110,7 +117,7 @@ func runSched(w *Workload, c schedCfg, seed uint64) *schedRun {
 					recs = u
 				}
 				wr := &WriteReq{Variable: b.Variable, Parts: []*BucketWrite{{B: b, Recs: recs}}}
-				plans[ci] = append(plans[ci], cop{kind: "write", w: []*WriteReq{wr}, think: th})
+				plans[ci] = append(plans[ci], cop{kind: "write", w: []*WriteReq{wr}, think: th, align: al})
 			} else {
 				b := w.Buckets[r.Intn(len(w.Buckets))]
 				plans[ci] = append(plans[ci], cop{kind: "read", key: b.Key(), think: th})
@@ -121,7 +128,9 @@ func runSched(w *Workload, c schedCfg, seed uint64) *schedRun {
 	if c.shutdown {
 		shutAfter = r.Intn(c.writers*c.opsPerClient + 1)
 	}
+	var simStart int64
 	sr.sim = simrt.Run(w.Sim, func() {
+		simStart = simrt.NowNanos()
 		n, err := StartNode(dataRoot, w.Node)
 		if err != nil {
 			sr.startErr = err.(*StartError)
@@ -156,6 +165,12 @@ func runSched(w *Workload, c schedCfg, seed uint64) *schedRun {
 					}
 					if p.think > 0 {
 						simrt.Sleep(p.think)
+					}
+					if p.align > 0 {
+						period := int64(c.alignTo)
+						d := period - (simrt.NowNanos()-simStart)%period
+						d += []int64{-int64(time.Millisecond), 0, int64(time.Millisecond)}[p.align-1]
+						simrt.Sleep(time.Duration(d))
 					}
 					op := &schedOp{client: ci, kind: p.kind, w: p.w, key: p.key}
 					sr.ops = append(sr.ops, op)
